@@ -65,12 +65,26 @@ class C02(IRProp):
             got = obs.get(name)
             if got != want:
                 bad.append(dict(what=f"label {name}: expected {want}, found {got}", finding=self.classify(case, name, want, got)))
+        whole = {i for (i, t, off, ln, patch, to_proxy) in case.mods if t == "del" and off == 0 and ln == case.size(i)}
+
+        def slides_onto_proxied(i):
+            # block i is deleted whole (no proxy asked) and so is everything up to a block that is deleted to a proxy: the labels of
+            # block i have slid onto that block ("the next position") when it is proxied, so either outcome meets the statement
+            if i not in whole or i in proxied:
+                return False
+            j = i + 1
+            while j < len(case.blocks) and j in whole and j not in proxied:
+                j += 1
+            return j < len(case.blocks) and j in proxied
         for i in range(len(case.blocks)):
             names = [f"L{i}"] + ([f"X{i}"] if i in case.extra_start else [])
-            for n in names:
-                expect(n, ("proxy",) if i in proxied else ("pos", starts[i]))
-            if i in case.end_labels:
-                expect(f"E{i}", ("proxy",) if i in proxied else ("pos", starts[i] + len(chunks[i][0])))
+            for n in names + ([f"E{i}"] if i in case.end_labels else []):
+                if slides_onto_proxied(i) and obs.get(n) == ("proxy",):
+                    continue
+                if n.startswith("E"):
+                    expect(n, ("proxy",) if i in proxied else ("pos", starts[i] + len(chunks[i][0])))
+                else:
+                    expect(n, ("proxy",) if i in proxied else ("pos", starts[i]))
         # labels defined by patches: position of the patch inside the chunk + offset inside the patch
         for i in range(len(case.blocks)):
             mods = sorted((off, n, ln) for n, (bi, t, off, ln, patch, _) in enumerate(case.mods) if bi == i)
